@@ -22,7 +22,7 @@ RULE = ("Streams of 120..500 points (thorough ..2500) with 1-2 categorical (nume
         "from the history; a freshly built imputer or a LONG-LIVED one that was already used before the trees were restructured) at Hypothesis-chosen checkpoints: inputs agree with x outside the subset; with use_storage and a reservoir "
         "for the routed leaf every imputed value is the value that feature has in a point of THAT reservoir (otherwise any finite value); "
         "without storage categorical values are classes observed for that feature, numeric values finite; n_samples predictions; x and "
-        "all reservoirs unchanged. Non-trivial: the leaf set of some feature changed at least twice and some tree has >= 3 leaves; "
+        "all reservoirs unchanged. LONG: two plain runs of ~1100 updates (thorough: up to 5000) with len() checked after every update and the reservoir invariants every 97. Non-trivial: the leaf set of some feature changed at least twice and some tree has >= 3 leaves; "
         "distinct by case digest.")
 ASSUMPTIONS = ["river 0.26.1 tree node API (children, branch_no, iter_leaves) is used as the independent router",
                "streams with missing features (the KeyError branch of the tree walk) are outside the quantifier and not generated"]
@@ -241,13 +241,53 @@ def cases(draw, tmax):
             'imputer_checks': checks}
 
 
-SUBS = {'stream': run_case}
+def run_long(case):
+    """A stream well beyond a thousand updates (rolling windows, counters that saturate): len() == number of updates after EVERY
+    update, the full reservoir invariants every 97 updates."""
+    from ixai.storage import TreeStorage
+    cats, nums, rows = make_stream(case)
+    names = cats + nums
+    random.seed(case['seeds'][0])
+    np.random.seed(case['seeds'][1])
+    storage = TreeStorage(cat_feature_names=list(cats), num_feature_names=list(nums), max_depth=case['max_depth'],
+                          leaf_reservoir_length=case['length'], grace_period=case['grace'], seed=case['tree_seed'])
+    seen_ids = set()
+    state = {'max_leaves': 0, 'last_keys': {}, 'changes': {}, 'seen_rows': set()}
+    for t, x in enumerate(rows, start=1):
+        seen_ids.add(id(x))
+        state['seen_rows'].add(tuple(sorted(x.items())))
+        try:
+            storage.update(x)
+        except Exception as e:
+            return Result(False, key=f'C19:update:exception:{type(e).__name__}', detail=f'update {t}: {e!r}')
+        if len(storage) != t:
+            return Result(False, key='C19:len', detail=f'after {t} updates len(storage) = {len(storage)}')
+        if t % 97 == 0 or t == len(rows):
+            err = check_storage(storage, names, seen_ids, t, x, case['length'], state)
+            if err:
+                return Result(False, key=err[0], detail=err[1])
+    return Result(True, nontrivial=len(rows) > 1000 and state['max_leaves'] >= 2, labels=['long', f"max_leaves={min(state['max_leaves'], 8)}"])
+
+
+@st.composite
+def long_cases(draw, tmax):
+    T = tmax - draw(st.integers(0, 40))
+    switches = sorted(draw(st.lists(st.integers(20, T - 10), min_size=2, max_size=2, unique=True)))
+    return {'T': T, 'n_cat': 1, 'n_num': draw(st.integers(1, 2)), 'switches': switches, 'stream_seed': draw(st.integers(0, 10 ** 6)),
+            'max_depth': draw(st.integers(2, 4)), 'grace': draw(st.sampled_from([30, 100, 200])), 'length': draw(st.integers(1, 5)),
+            'tree_seed': draw(st.sampled_from([3, 42])), 'seeds': [draw(gen.seed32) % 2 ** 31, draw(gen.seed32) % 2 ** 31],
+            'imputer_checks': []}
+
+
+SUBS = {'stream': run_case, 'long': run_long}
 
 
 def replay(sub, case):
-    return run_case(case)
+    return SUBS.get(sub, run_case)(case)
 
 
 def run(ctx):
     ctx.rule, ctx.assumptions = RULE, ASSUMPTIONS
-    ctx.search('stream', cases(2500 if ctx.thorough() else 400), run_case, ctx.n(70, 3200), shrink=ctx.thorough())
+    if not ctx.search('stream', cases(2500 if ctx.thorough() else 400), run_case, ctx.n(70, 3200), shrink=ctx.thorough()):
+        return
+    ctx.search('long', long_cases(1100 if not ctx.thorough() else 5000), run_long, ctx.n(2, 32), shrink=False)
